@@ -26,6 +26,9 @@ FILES = {
                 "class Myfoo:\n    class Inner:\n        pass\n"),
     # ordinary classes that share their names with typing constructs
     "shapes.py": "class List:\n    pass\n\n\nclass Set:\n    pass\n\n\nclass Union:\n    pass\n\n\nclass TypedDict:\n    pass\n\n\nclass Generator:\n    pass\n\n\nclass Any:\n    pass\n",
+    # modules whose names end in "typing"
+    "mytyping.py": "class Foo:\n    pass\n",
+    "pkg/typing.py": "class Proto:\n    pass\n",
     "target.py": ("class Own:\n    pass\n\n\ndef f(a, b):\n    return a\n\n\ndef g(n):\n    yield n\n\n\n"
                   "class K:\n    def m(self, x):\n        return x\n"),
 }
@@ -43,9 +46,9 @@ def setup_fixture(pd, tag):
             f.write(src)
     sys.path.insert(0, root)
     importlib.invalidate_caches()
-    for name in ("utils", "pkg", "pkg.utils", "foo", "barfoo", "nest", "shapes", "target"):
+    for name in ("utils", "pkg", "pkg.utils", "pkg.typing", "mytyping", "foo", "barfoo", "nest", "shapes", "target"):
         sys.modules.pop(name, None)
-    for name in ("utils", "pkg", "pkg.utils", "foo", "barfoo", "nest", "shapes", "target"):
+    for name in ("utils", "pkg", "pkg.utils", "pkg.typing", "mytyping", "foo", "barfoo", "nest", "shapes", "target"):
         mods[name] = importlib.import_module(name)
     return root, mods
 
@@ -54,7 +57,7 @@ def teardown_fixture(root):
     import sys
     if root in sys.path:
         sys.path.remove(root)
-    for name in ("utils", "pkg", "pkg.utils", "foo", "barfoo", "nest", "shapes", "target"):
+    for name in ("utils", "pkg", "pkg.utils", "pkg.typing", "mytyping", "foo", "barfoo", "nest", "shapes", "target"):
         sys.modules.pop(name, None)
 
 
@@ -69,7 +72,7 @@ class Gen(types_gen.TypeGen):
                 mods["nest"].Outer, mods["nest"].Outer.Inner, mods["nest"].Outer.Inner.Deep, mods["nest"].Myfoo.Inner,
                 mods["target"].Own, io.StringIO, io.BytesIO,
                 mods["shapes"].List, mods["shapes"].Set, mods["shapes"].Union, mods["shapes"].TypedDict, mods["shapes"].Generator,
-                mods["shapes"].Any]
+                mods["shapes"].Any, mods["mytyping"].Foo, mods["pkg.typing"].Proto]
         self.atoms = [cid(int), cid(str), cid(type(None)), cid(float), cid(bool)]
         self.classes = [cid(c) for c in user]
         self.type_of = [("typeOf", str(tbl.of(c))) for c in (mods["utils"].A, mods["pkg.utils"].B, int, mods["nest"].Outer.Inner)]
